@@ -54,6 +54,13 @@ def build(cfg, masks):
     Mtree = lambda t: Params(nn_params=bool(masks[t][0]), eq_params=od({"a": bool(masks[t][1]), "b": bool(masks[t][2])}))
     use_str = all(as_string(masks[t]) for t in masks)           # every mask has a string form: go through from_str (strings and trees may be mixed)
     M = (lambda t: as_string(masks[t])) if use_str else Mtree
+    # boolean-tree form with a partial specification: a term whose mask is the documented default (network parameters only)
+    # is left out and `params` is passed instead; every other term keeps the mask it was given
+    is_default = lambda t: tuple(bool(x) for x in masks[t]) == (True, False, False)
+
+    def tree_keys(cls, **kw):
+        given = {t: m for t, m in kw.items() if not is_default(t)}
+        return cls(**given, params=P) if len(given) < len(kw) else cls(**kw)
     # the observations may carry observed rows of the equation's parameter `a` (the network does not read it): the
     # observation term keeps its value and its own mask
     oeq = {"a": jnp.array(cfg["obs"]["arows"])[:, None]} if cfg["obs"].get("arows") else {}
@@ -63,7 +70,7 @@ def build(cfg, masks):
         class Eq(jinns.loss.ODE):
             def equation(self, t, u, params):
                 return params.eq_params["a"] * u(t, params) + poly_jax(q, jnp.atleast_1d(t))
-        dk = (lambda **kw: jinns.parameters.DerivativeKeysODE.from_str(P, **kw) if use_str else jinns.parameters.DerivativeKeysODE(**kw))(dyn_loss=M("dyn_loss"), observations=M("observations"), initial_condition=M("initial_condition"))
+        dk = (lambda **kw: jinns.parameters.DerivativeKeysODE.from_str(P, **kw) if use_str else tree_keys(jinns.parameters.DerivativeKeysODE, **kw))(dyn_loss=M("dyn_loss"), observations=M("observations"), initial_condition=M("initial_condition"))
         lw = jinns.loss.LossWeightsODE(dyn_loss=w["dyn_loss"], initial_condition=w["initial_condition"], observations=w["observations"])
         L = jinns.loss.LossODE(u=u, dynamic_loss=Eq(), derivative_keys=dk, loss_weights=lw, initial_condition=(cfg["ic"]["t0"], jnp.array(cfg["ic"]["u0"])))
         pb = {"a": jnp.array(cfg["a_batch"])[:, None]} if cfg.get("a_batch") else None
@@ -77,7 +84,7 @@ def build(cfg, masks):
         class Eq(jinns.loss.PDEStatio):
             def equation(self, x, u, params):
                 return params.eq_params["a"] * u(x, params) + poly_jax(q, x)
-        dk = (lambda **kw: jinns.parameters.DerivativeKeysPDEStatio.from_str(P, **kw) if use_str else jinns.parameters.DerivativeKeysPDEStatio(**kw))(dyn_loss=M("dyn_loss"), observations=M("observations"), boundary_loss=M("boundary_loss"), norm_loss=M("norm_loss"))
+        dk = (lambda **kw: jinns.parameters.DerivativeKeysPDEStatio.from_str(P, **kw) if use_str else tree_keys(jinns.parameters.DerivativeKeysPDEStatio, **kw))(dyn_loss=M("dyn_loss"), observations=M("observations"), boundary_loss=M("boundary_loss"), norm_loss=M("norm_loss"))
         lw = jinns.loss.LossWeightsPDEStatio(dyn_loss=w["dyn_loss"], norm_loss=w["norm_loss"], boundary_loss=w["boundary_loss"], observations=w["observations"])
         L = jinns.loss.LossPDEStatio(u=u, dynamic_loss=Eq(), derivative_keys=dk, loss_weights=lw, omega_boundary_fun=lambda x: poly_jax(fb, x), **common)
         return P, L, PDEStatioBatch(inside_batch=jnp.array(cfg["batch"]), border_batch=arr, obs_batch_dict=obs)
@@ -85,7 +92,7 @@ def build(cfg, masks):
     class Eq(jinns.loss.PDENonStatio):
         def equation(self, t, x, u, params):
             return params.eq_params["a"] * u(t, x, params) + poly_jax(q, jnp.concatenate([t, x]))
-    dk = (lambda **kw: jinns.parameters.DerivativeKeysPDENonStatio.from_str(P, **kw) if use_str else jinns.parameters.DerivativeKeysPDENonStatio(**kw))(dyn_loss=M("dyn_loss"), observations=M("observations"), boundary_loss=M("boundary_loss"),
+    dk = (lambda **kw: jinns.parameters.DerivativeKeysPDENonStatio.from_str(P, **kw) if use_str else tree_keys(jinns.parameters.DerivativeKeysPDENonStatio, **kw))(dyn_loss=M("dyn_loss"), observations=M("observations"), boundary_loss=M("boundary_loss"),
                                                      norm_loss=M("norm_loss"), initial_condition=M("initial_condition"))
     lw = jinns.loss.LossWeightsPDENonStatio(dyn_loss=w["dyn_loss"], norm_loss=w["norm_loss"], boundary_loss=w["boundary_loss"], observations=w["observations"],
                                             initial_condition=w["initial_condition"])
@@ -200,6 +207,14 @@ def string_forms_oracle(rng):
         for f in fields:
             if not is_mask(getattr(d, f), True, False):
                 fails.append({"detail": f"default of {cls.__name__}.{f} is {getattr(d, f)}", "case": {"what": "strings"}})
+        # partial specification in the constructor form: one term is given a mask of its own, every other term gets the default
+        for f in fields:
+            for nn, eq in ((False, True), (False, False), (True, True)):
+                d = cls(**{f: Params(nn_params=nn, eq_params={"a": eq, "b": eq})}, params=P)
+                for g in fields:
+                    ok = is_mask(getattr(d, g), nn, eq) if g == f else is_mask(getattr(d, g), True, False)
+                    if not ok:
+                        fails.append({"detail": f"{cls.__name__}({f}=(network {nn}, equation parameters {eq}), params=...) gives {g} = {getattr(d, g)}", "case": {"what": "strings"}})
         try:
             cls.from_str(P, dyn_loss="everything")
             fails.append({"detail": f"{cls.__name__}.from_str accepts an unknown string", "case": {"what": "strings"}})
